@@ -409,7 +409,6 @@ int sim_run(void) {
         now_us += 1;
         SimTask *t;
         if (K.sched_policy == 1) {
-            for (int i = 0; i < pct_n; i++) if (pct_change[i] == S.steps && cur == NULL) { /* demote last runner */ }
             t = cand[0];
             for (int i = 1; i < n; i++) if (cand[i]->prio > t->prio) t = cand[i];
             for (int i = 0; i < pct_n; i++) if (pct_change[i] == S.steps) t->prio = pct_n - i;  /* lowest band */
